@@ -177,7 +177,9 @@ func (x *Exec) checkModifies(st *State, fn *ssa.Function, fc *FuncContract, env 
 			scan(af)
 		}
 	}
+	x.frameMode = true
 	scan(fn)
+	x.frameMode = false
 	_ = all
 	allowed := map[string]bool{}
 	for _, m := range fc.Modifies {
